@@ -241,3 +241,180 @@ c.qualname = 'lentil.propagate.propagate_dft'
 c.tag = 'two fields'
 c.params = lambda ctx: _prop_params(ctx, 2, None, explicit_shapes=True)
 _prop_posts(c)
+
+
+# ---------------------------------------------------------------------------------------
+# FFT propagation (C09)
+
+c = contract('lentil.propagate._fft_shape', level='I')
+
+
+def _fftshape_params(ctx):
+    dx = Arr.from_list([ctx.fresh_real('dx_r'), ctx.fresh_real('dx_c')])
+    du = Arr.from_list([ctx.fresh_real('du_r'), ctx.fresh_real('du_c')])
+    zz, wl, os_ = ctx.fresh_real('z'), ctx.fresh_real('wavelength'), ctx.fresh_int('oversample')
+    for v in (dx.at((0,)), dx.at((1,)), du.at((0,)), du.at((1,)), zz, wl):
+        ctx.assume(v > 0)
+    ctx.assume(os_ >= 1)
+    return {'dx': dx, 'du': du, 'z': zz, 'wavelength': wl, 'oversample': os_}
+
+
+def fft_shape_model(ctx, env):
+    """N_k = round(lambda z os / (dx_k du_k)) (round half to even) and the reported wavelength
+    lambda' = min_k N_k dx_k du_k / (os z)."""
+    dx, du = elems(ctx, env['dx']), elems(ctx, env['du'])
+    z, wl, os_ = env['z'], env['wavelength'], env['oversample']
+    N = [S.round_(S.truediv(S.mul(S.mul(wl, z), os_), S.mul(dx[k], du[k]))) for k in range(2)]
+    lam = [S.truediv(S.mul(S.mul(S.truediv(N[k], os_), dx[k]), du[k]), z) for k in range(2)]
+    return (Arr.from_list(N), S.min_(lam[0], lam[1]))
+
+
+c.params = _fftshape_params
+c.model = fft_shape_model
+
+
+def _anisotropic(ctx, env0):
+    dx, du = elems(ctx, env0['dx']), elems(ctx, env0['du'])
+    return S.z(S.ne(S.mul(dx[0], du[0]), S.mul(dx[1], du[1])))
+
+
+c.witnesses['anisotropic-sampling-product'] = _anisotropic
+
+
+@c.post('alpha_at_reported_wavelength_is_one_over_N')
+def _(ctx, env0, env, out):
+    # DFT propagation "evaluated at the wavelength it reports": alpha_k(lambda') = 1/N_k on both axes
+    N, lam = out.value
+    dx, du = elems(ctx, env0['dx']), elems(ctx, env0['du'])
+    z, os_ = env0['z'], env0['oversample']
+    f = []
+    for k in range(2):
+        alpha = S.truediv(S.mul(dx[k], du[k]), S.mul(S.mul(lam, z), os_))
+        f.append(z3.Implies(S.z(S.ge(N.at((k,)), 1)), S.z(S.eq(S.mul(alpha, N.at((k,))), 1))))
+    return z3.And(*f)
+
+
+# ---- _fft2 is kept abstract (its equality with the centred unitary DFT is a bounded stand-in); what is
+# proved is *what it is applied to* ----
+
+def fft2_call_model(ctx, env):
+    x = A.as_array(ctx, env['x'])
+    ctx.__dict__.setdefault('ghost_fft2_inputs', []).append(x.snapshot())
+    ctx.assumptions.add('abstract:lentil.propagate._fft2 (centred unitary FFT; bounded stand-in C09)')
+    return A.fresh_array(ctx, 'fft2_out', x.shape, 'complex')
+
+
+c = contract('lentil.propagate._fft2', level='I')
+c.call_model = fft2_call_model
+
+
+def _has_tilt_model(ctx, env):
+    r = False
+    for f in env['wavefront'].attrs['data'].items:
+        r = S.or_(r, len(f.attrs['tilt'].items) > 0)
+    return r
+
+
+def _pfft_params(with_scratch):
+    def params(ctx):
+        nf = ctx.fresh_int('nfields')
+        n = 1 if ctx.branch(nf == 1) else 2
+        fields = []
+        for k in range(n):
+            tilts = [W.mk_tilt(ctx, 'f%d.t0' % k)] if ctx.branch(ctx.fresh_bool('f%d.has_tilt' % k)) else []
+            fields.append(F.mk_field(ctx, 'f%d' % k, 'array', tilt=PyList(tilts)))
+            h, w_ = fields[-1].attrs['data'].shape
+            ctx.assume(z3.Not(z3.And(h == 1, w_ == 1)))
+        wshape = shape2(ctx, 'w.shape')
+        w = W.mk_wavefront(ctx, fields, ptype='pupil', shape=wshape)
+        # class invariant of Wavefront (established by Plane.multiply and the propagators): every field
+        # lies inside the centred array of Wavefront.shape
+        for f in fields:
+            e = f.attrs['extent']
+            ctx.assume(z3.And(S.z(e[0]) >= -(wshape[0] / 2), S.z(e[1]) <= wshape[0] - 1 - wshape[0] / 2,
+                              S.z(e[2]) >= -(wshape[1] / 2), S.z(e[3]) <= wshape[1] - 1 - wshape[1] / 2))
+        du = (ctx.fresh_real('du_r'), ctx.fresh_real('du_c'))
+        ctx.assume(z3.And(du[0] > 0, du[1] > 0))
+        os_ = ctx.fresh_int('oversample')
+        ctx.assume(os_ >= 1)
+        shape = shape2(ctx, 'shape') if ctx.branch(ctx.fresh_bool('shape_given')) else None
+        scratch = None
+        if with_scratch:
+            scratch = array(ctx, 'scratch', shape2(ctx, 'scratch'), 'complex')
+        return {'wavefront': w, 'pixelscale': du, 'shape': shape, 'oversample': os_, 'scratch': scratch}
+    return params
+
+
+def _pfft_contract(tag, with_scratch):
+    c = contract('lentil.propagate.propagate_fft#%s' % tag, level='I')
+    c.qualname = 'lentil.propagate.propagate_fft'
+    c.tag = tag
+    c.params = _pfft_params(with_scratch)
+    c.modifies = {'scratch'}
+
+    def grid(ctx, env):
+        w = env['wavefront']
+        return fft_shape_model(ctx, {'dx': w.attrs['_pixelscale'], 'du': env['pixelscale'], 'z': w.attrs['focal_length'],
+                                     'wavelength': w.attrs['_wavelength'], 'oversample': env['oversample']})
+    c.raises['NotImplementedError'] = lambda ctx, env: S.z(_has_tilt_model(ctx, env))
+
+    def too_large(ctx, env):
+        if env['shape'] is None:
+            return z3.BoolVal(False)
+        N, _ = grid(ctx, env)
+        os_ = env['oversample']
+        return z3.And(z3.Not(S.z(_has_tilt_model(ctx, env))),
+                      z3.Or(S.z(S.gt(env['shape'][0], S.truediv(N.at((0,)), os_))),
+                            S.z(S.gt(env['shape'][1], S.truediv(N.at((1,)), os_)))))
+
+    def scratch_small(ctx, env):
+        if env['scratch'] is None:
+            return z3.BoolVal(False)
+        N, _ = grid(ctx, env)
+        sh = env['scratch'].shape
+        return z3.And(z3.Not(S.z(_has_tilt_model(ctx, env))), z3.Not(too_large(ctx, env)),
+                      z3.Or(S.z(S.lt(sh[0], N.at((0,)))), S.z(S.lt(sh[1], N.at((1,))))))
+    c.raises['ValueError'] = lambda ctx, env: z3.Or(too_large(ctx, env), scratch_small(ctx, env))
+
+    @c.post('transform_of_the_padded_total_field')
+    def _(ctx, env0, env, out):
+        w0, res = env0['wavefront'], out.value
+        N, lam = grid(ctx, env0)
+        N0, N1 = N.at((0,)), N.at((1,))
+        os_ = env0['oversample']
+        ins = ctx.__dict__.get('ghost_fft2_inputs', [])
+        ctx.oblige('propagate.propagate_fft::fft2_called_once[%s]' % tag, len(ins) == 1)
+        if len(ins) != 1:
+            return None
+        x = ins[0]
+        r, cc = ints(ctx, 'r', 'c')
+        want = F.total(ctx, w0.attrs['data'].items, r - S.z(N0) / 2, cc - S.z(N1) / 2)
+        inr = z3.And(r >= 0, r < S.z(N0), cc >= 0, cc < S.z(N1))
+        ctx.oblige('propagate.propagate_fft::grid_shape[%s]' % tag,
+                   z3.And(S.z(S.eq(x.shape[0], N0)), S.z(S.eq(x.shape[1], N1))))
+        # the array handed to the FFT is the total field with its origin sample at index floor(N/2),
+        # zero elsewhere - whatever the scratch buffer held before
+        ctx.oblige('propagate.propagate_fft::fft_input_is_padded_total_field[%s]' % tag,
+                   z3.Implies(inr, F.cx_eq(x.at((r, cc)), want)))
+        g = res.attrs['data'].items
+        ctx.oblige('propagate.propagate_fft::one_output_field[%s]' % tag, len(g) == 1)
+        ps = res.attrs['_pixelscale']
+        du = env0['pixelscale']
+        sh = env0['shape']
+        rs = elems(ctx, res.attrs['shape'])
+        want_shape = (S.mul(sh[0], os_), S.mul(sh[1], os_)) if sh is not None else (N0, N1)
+        meta = [S.z(S.eq(res.attrs['_wavelength'], lam)), S.z(S.eq(res.attrs['focal_length'], w0.attrs['focal_length'])),
+                S.z(S.eq(ps.at((0,)), S.truediv(du[0], os_))), S.z(S.eq(ps.at((1,)), S.truediv(du[1], os_))),
+                S.z(S.eq(rs[0], want_shape[0])), S.z(S.eq(rs[1], want_shape[1])),
+                z3.BoolVal(key(ctx, res.attrs['_ptype']) == 'image')]
+        ctx.oblige('propagate.propagate_fft::metadata[%s]' % tag, z3.And(*meta))
+        if len(g) == 1:
+            o = F.off(g[0])
+            ctx.oblige('propagate.propagate_fft::output_field_centred[%s]' % tag,
+                       z3.And(S.z(S.eq(o[0], 0)), S.z(S.eq(o[1], 0)), F.wf_extent(ctx, g[0])))
+        return None
+    return c
+
+
+_pfft_contract('no-scratch', False)
+_pfft_contract('scratch', True)
